@@ -784,6 +784,7 @@ package kcp
 //
 //@ func newUDPSession counted trusted
 //@   ensures @C10 [header-size-accounts-for-cipher-and-fec] result.hdr()
+//@   ensures @C10 [a-new-session-honours-the-default-mtu-with-all-its-headers] result.kcp.mtu + result.headerSize + result.ov() <= 1400
 //@   modifies all(DefaultSnmp)
 //@   ensures result != nil && fresh(result) && result.imm() && result.kcp.conv == conv && result.remote == remote
 //@   ensures @C06 @C09 [the-configured-cipher-is-the-one-installed] result.block == block
@@ -854,6 +855,8 @@ package kcp
 //@ func UDPSession.SetMtu
 //@   requires s.imm()
 //@   modifies everything
+//@   ensures @C10 [an-accepted-mtu-is-honoured-with-all-headers] result ==> s.kcp.mtu + s.headerSize + s.ov() <= min(1500, old(mtu))
+//@   ensures s.headerSize == old(s.headerSize) && s.block == old(s.block) && s.kcp == old(s.kcp) && s.fecEncoder == old(s.fecEncoder)
 //
 // The session's output callback (runs inside flush, under the session lock).
 //@ func newUDPSession$1
